@@ -250,6 +250,13 @@ static double dscale(const lcase_t *lc, int i)
  *   left:   || A X - B ||_F <= tol (||A|| ||X|| + ||B||)
  *   right:  || X A - B ||_F <= tol (||X|| ||A|| + ||B||)
  */
+/*
+ * Where A and B are sums of terms that can cancel (K Z0* + S K Z0, 1 - S,
+ * Z + Z0 ...) the library cannot form them more accurately than eps times
+ * the size of the terms: the caller adds the norms of the summands.
+ */
+static long double resid_extra_a, resid_extra_b;
+
 static int resid_ok(int left, const double complex *A, const double complex *X,
 	const double complex *B, int n, double factor, double *ratio)
 {
@@ -267,10 +274,18 @@ static int resid_ok(int left, const double complex *A, const double complex *X,
     }
     r = sqrtl(r);
     bound = 1.0e3L * n * DBL_EPSILON * factor *
-	(oc_fnorm(A, n, n) * oc_fnorm(X, n, n) + oc_fnorm(B, n, n));
+	((oc_fnorm(A, n, n) + resid_extra_a) * oc_fnorm(X, n, n) +
+	 oc_fnorm(B, n, n) + resid_extra_b);
     if (ratio != NULL)
 	*ratio = (double)(r / bound);
     return r <= bound;
+}
+
+static long double _cabs2(double complex v)
+{
+    long double a = cabsl((oc_t)v);
+
+    return a * a;
 }
 
 static int any_huge(const double complex *X, int count, long double scale)
@@ -327,7 +342,7 @@ static void do_conv(const lcase_t *lc)
 				   real, 2 complex */
     int graded = lc->m >= 10;
     double ratio = 0.0;
-    long double cond;
+    long double cond, ea2 = 0.0L, eb2 = 0.0L;
     const char *fn = lc->fn;
     int scaled = 0;
 
@@ -428,6 +443,10 @@ static void do_conv(const lcase_t *lc)
 		B[i * n + j] = (i == j ? k[i] * conj(z0[i]) : 0.0) +
 		    in[i * n + j] * k[j] * z0[j];
 		Xu[i * n + j] = X[i * n + j];
+		ea2 += (i == j ? k[j] * k[j] : 0.0) +
+		    _cabs2(in[i * n + j] * k[j]);
+		eb2 += (i == j ? _cabs2(k[i] * z0[i]) : 0.0) +
+		    _cabs2(in[i * n + j] * k[j] * z0[j]);
 	    }
 	}
 	left = 1;
@@ -438,6 +457,10 @@ static void do_conv(const lcase_t *lc)
 		    in[i * n + j] * k[j] * z0[j];
 		B[i * n + j] = ((i == j ? 1.0 : 0.0) - in[i * n + j]) * k[j];
 		Xu[i * n + j] = X[i * n + j];
+		eb2 += (i == j ? k[j] * k[j] : 0.0) +
+		    _cabs2(in[i * n + j] * k[j]);
+		ea2 += (i == j ? _cabs2(k[i] * z0[i]) : 0.0) +
+		    _cabs2(in[i * n + j] * k[j] * z0[j]);
 	    }
 	}
 	left = 1;
@@ -456,6 +479,8 @@ static void do_conv(const lcase_t *lc)
 
 		A[i * n + j] = ku * (zu + (i == j ? z0u : 0.0));
 		B[i * n + j] = ku * (zu - (i == j ? conj(z0u) : 0.0));
+		ea2 += _cabs2(ku * zu) + (i == j ? _cabs2(ku * z0u) : 0.0);
+		eb2 = ea2;
 		Xu[i * n + j] = X[i * n + j] * sqrt(dscale(lc, j)) /
 		    sqrt(di);
 	    }
@@ -469,11 +494,16 @@ static void do_conv(const lcase_t *lc)
 		A[i * n + j] = k[i] * ((i == j ? 1.0 : 0.0) + z0[i] * yu);
 		B[i * n + j] = k[i] * ((i == j ? 1.0 : 0.0) -
 			conj(z0[i]) * yu);
+		ea2 += (i == j ? k[i] * k[i] : 0.0) +
+		    _cabs2(k[i] * z0[i] * yu);
+		eb2 = ea2;
 		Xu[i * n + j] = X[i * n + j];
 	    }
 	}
 	left = 0;
     }
+    resid_extra_a = sqrtl(ea2);
+    resid_extra_b = sqrtl(eb2);
     fin = oc_all_finite(X, n * n);
     cond = oc_cond(n, A);
     qual = cond <= 1.0e6L;
@@ -484,6 +514,7 @@ static void do_conv(const lcase_t *lc)
 	huge = any_huge(Xu, n * n, an > 0.0L ? bn / an : 1.0L);
 	res = resid_ok(left, A, Xu, B, n, 1.0, &ratio);
     }
+    resid_extra_a = resid_extra_b = 0.0L;
     if (dbg)
 	fprintf(stderr, "conv %s n=%d fin=%d huge=%d res=%d ratio=%.3g "
 		"cond=%.3Lg\n", fn, n, fin, huge, res, ratio, cond);
